@@ -4,13 +4,14 @@
 # of /repo gets the patch, a scratch copy of /verif (with a copy of the build cache) is pointed at it.
 NAME="$1"; PATCH="$(readlink -f "$2")"; shift; shift
 IDS="${*:-C01 C02 C03 C04 C05 C06 C07 C08 C09 C10 C11 C12 C13 C14 C15 C16}"
+SRC="${SM_VERIF_SRC:-/verif}"; OUTD="${SM_OUT:-/verif/out/seedmatrix}"   # SM_VERIF_SRC: another checkout of /verif (attribution runs against an older state of the checks)
 WT=/tmp/sm/repo_$NAME; SV=/tmp/sm/verif_$NAME
-mkdir -p /tmp/sm /verif/out/seedmatrix
+mkdir -p /tmp/sm "$OUTD"
 rm -rf "$SV"; git -C /repo worktree remove --force "$WT" 2>/dev/null
 git -C /repo worktree add --detach "$WT" HEAD -q || exit 3
 git -C "$WT" apply "$PATCH" || { echo "$NAME PATCH-DOES-NOT-APPLY"; git -C /repo worktree remove --force "$WT"; exit 4; }
 mkdir -p "$SV"
-rsync -a --exclude /.git --exclude /out --exclude /evidence /verif/ "$SV/"
+rsync -a --exclude /.git --exclude /out --exclude /evidence "$SRC/" "$SV/"
 export MC_ALT_REPO="$WT"
 CAUGHT=""; MACH=""
 cd "$SV"
@@ -23,6 +24,6 @@ done
   echo "SEED $NAME CAUGHT-BY:$CAUGHT MACHINERY:$MACH"
   for p in $CAUGHT; do grep -m3 "^  \[" "$SV/log_$p.txt" | cut -c1-300; done
   for p in $MACH; do q=${p%%(*}; grep -m2 -E "MACHINERY|error" "$SV/log_$q.txt" | cut -c1-300; done
-} > /verif/out/seedmatrix/$NAME.txt
-cat /verif/out/seedmatrix/$NAME.txt | head -3
+} > "$OUTD/$NAME.txt"
+cat "$OUTD/$NAME.txt" | head -3
 cd /; rm -rf "$SV"; git -C /repo worktree remove --force "$WT"
